@@ -6,5 +6,5 @@ reg = C.load_all()
 P = load_props()
 pid, mid = sys.argv[1], sys.argv[2]
 ms=[m for m in P[pid]['mutants'] if m['id']==mid]
-r = run_mutants(reg, ms, P[pid].get('models'), 20000, 0)
+r = run_mutants(reg, ms, P[pid].get('models'), 20000, 0, pid=pid, scans=P[pid].get('scans', ()))
 import json; print(json.dumps(r, indent=1)[:3000])
